@@ -100,7 +100,9 @@ theorem c06_rejected_invisible_in_history (cfg : Cfg) (pre more : List Step) (s 
 entry `(id, p)` is rejected by `s'`. Then the batch `pre ++ (id, p) :: rest`
 leaves the system, and emits the events, exactly as the batch `pre` does; the
 entries after the rejected one are never looked at. The result is the
-validation error (or `sendFailed` if the worker is gone, as for `pre`). -/
+validation error (or `sendFailed` if the worker is gone, as for `pre`); D12: if
+the rejected entry's index is u64::MAX the call refuses it before validation
+and the error kind is `InvalidInput` instead. -/
 theorem c06_sys_batch_rejected_prefix (y : Sys) (s s' : Store) (pre rest : List (LogId × Bytes))
     (id : LogId) (p : Bytes) (seg' : Seg) (effs' : List Eff) (k : ErrKind)
     (hs : y.store = some s)
@@ -110,7 +112,8 @@ theorem c06_sys_batch_rejected_prefix (y : Sys) (s s' : Store) (pre rest : List 
     y.step (.call (.append (pre ++ (id, p) :: rest))) = y.step (.call (.append pre)) ∧
     (∀ more, (y.step (.call (.append (pre ++ (id, p) :: rest)))).run more =
       (y.step (.call (.append pre))).run more) ∧
-    (y.worker.pc ≠ .dead → (y.call (.append (pre ++ (id, p) :: rest))).1 = .err k) := by
+    (y.worker.pc ≠ .dead → (y.call (.append (pre ++ (id, p) :: rest))).1 =
+      .err (if id.index + 1 = U64 then .invalidInput else k)) := by
   obtain ⟨h1, h2⟩ := y.call_append_rejected_after s s' pre rest id p seg' effs' k hs h hk
   have h3 : y.step (.call (.append (pre ++ (id, p) :: rest))) = y.step (.call (.append pre)) :=
     congrArg Prod.fst h1
@@ -124,9 +127,18 @@ theorem c06_sys_batch_rejected_prefix (y : Sys) (s s' : Store) (pre rest : List 
 /-- Store level, cache-free refinement `Abs`: same verdict, same error kind,
 store unchanged, nothing emitted. -/
 theorem c06_same_verdict (s : Store) (r : RefLog) (h : Abs s r) (fsHas : Nat → Bool) (op : Op)
-    (hop : op.single) (k : ErrKind) (hr : r.call op = .error k) :
+    (hop : op.single) (hsm : op.small) (k : ErrKind) (hr : r.call op = .error k) :
     s.call fsHas op = (.err k, s, []) :=
-  h.rejects fsHas op hop k hr
+  h.rejects fsHas op hop hsm k hr
+
+/-- D12: without `small` (an `append` whose id has index u64::MAX) the store
+still rejects what the reference log rejects, unchanged and without effects;
+the error kind is the reference log's whenever the op is small, otherwise it
+may be `InvalidInput`. -/
+theorem c06_same_verdict_any (s : Store) (r : RefLog) (h : Abs s r) (fsHas : Nat → Bool) (op : Op)
+    (hop : op.single) (k : ErrKind) (hr : r.call op = .error k) :
+    ∃ k', s.call fsHas op = (.err k', s, []) ∧ (op.small → k' = k) :=
+  h.rejects_any_D12 fsHas op hop k hr
 
 /-- `purge` and `saveUserData` are never rejected by the reference log. -/
 theorem c06_never_rejected (r : RefLog) :
@@ -135,27 +147,39 @@ theorem c06_never_rejected (r : RefLog) :
 
 /-- **A3**, any settled system whose store is `Abs`-related to `r`. -/
 theorem c06_sys_same_verdict (y : Sys) (s : Store) (r : RefLog) (hs : y.store = some s)
-    (h : Abs s r) (hset : y.worker.settle = y.worker) (op : Op) (hop : op.single) (k : ErrKind)
-    (hr : r.call op = .error k) :
+    (h : Abs s r) (hset : y.worker.settle = y.worker) (op : Op) (hop : op.single) (hsm : op.small)
+    (k : ErrKind) (hr : r.call op = .error k) :
     y.call op = (.err k, y, []) ∧ ∀ more, (y.step (.call op)).run more = y.run more :=
-  ⟨c06_sys_rejected_is_identity y s op k hs hset (h.rejects y.fs.has op hop k hr),
-   c06_rejected_invisible_forever y s op k hs hset (h.rejects y.fs.has op hop k hr)⟩
+  ⟨c06_sys_rejected_is_identity y s op k hs hset (h.rejects y.fs.has op hop hsm k hr),
+   c06_rejected_invisible_forever y s op k hs hset (h.rejects y.fs.has op hop hsm k hr)⟩
+
+/-- D12: the same without `small`: the call is rejected with SOME error kind
+(the reference log's if the op is small), the whole system is unchanged, no
+event is emitted and every continuation is unaffected. -/
+theorem c06_sys_same_verdict_any (y : Sys) (s : Store) (r : RefLog) (hs : y.store = some s)
+    (h : Abs s r) (hset : y.worker.settle = y.worker) (op : Op) (hop : op.single)
+    (k : ErrKind) (hr : r.call op = .error k) :
+    ∃ k', y.call op = (.err k', y, []) ∧ (op.small → k' = k) ∧
+      ∀ more, (y.step (.call op)).run more = y.run more := by
+  obtain ⟨k', h1, h2⟩ := h.rejects_any_D12 y.fs.has op hop k hr
+  exact ⟨k', c06_sys_rejected_is_identity y s op k' hs hset h1, h2,
+    c06_rejected_invisible_forever y s op k' hs hset h1⟩
 
 /-- A3 from the C02 invariant (`CSys`). -/
 theorem c06_sys_same_verdict_csys (y : Sys) (r : RefLog) (h : CSys y r)
-    (hset : y.worker.settle = y.worker) (op : Op) (hop : op.single) (k : ErrKind)
+    (hset : y.worker.settle = y.worker) (op : Op) (hop : op.single) (hsm : op.small) (k : ErrKind)
     (hr : r.call op = .error k) :
     y.call op = (.err k, y, []) ∧ ∀ more, (y.step (.call op)).run more = y.run more := by
   obtain ⟨s, hs, _, hinv⟩ := h.1
-  exact c06_sys_same_verdict y s r hs hinv.abs hset op hop k hr
+  exact c06_sys_same_verdict y s r hs hinv.abs hset op hop hsm k hr
 
 /-- A3 from the C01 invariant (`SysRef`). -/
 theorem c06_sys_same_verdict_sysRef (y : Sys) (r : RefLog) (n b : Nat) (h : SysRef y r n b)
-    (hset : y.worker.settle = y.worker) (op : Op) (hop : op.single) (k : ErrKind)
+    (hset : y.worker.settle = y.worker) (op : Op) (hop : op.single) (hsm : op.small) (k : ErrKind)
     (hr : r.call op = .error k) :
     y.call op = (.err k, y, []) ∧ ∀ more, (y.step (.call op)).run more = y.run more := by
   obtain ⟨s, hs, href, _⟩ := h
-  exact c06_sys_same_verdict y s r hs href.abs hset op hop k hr
+  exact c06_sys_same_verdict y s r hs href.abs hset op hop hsm k hr
 
 theorem Sys.runCycles_settled (segs : List (List Step × Cfg)) : ∀ (y : Sys), y.Settled →
     (y.runCycles segs).Settled := by
@@ -181,14 +205,14 @@ theorem c06_sys_same_verdict_reachable (cfg : Cfg) (segs : List (List Step × Cf
     (hwf : ∀ op ∈ cycleOps segs ++ stepOps last, op.WF ∧ op.small)
     (hclean : CleanCycles (Sys.fresh cfg) segs)
     (halive : (((Sys.fresh cfg).runCycles segs).run last).worker.pc ≠ .dead)
-    (op : Op) (hop : op.single) (k : ErrKind) (hr : r.call op = .error k) :
+    (op : Op) (hop : op.single) (hsm : op.small) (k : ErrKind) (hr : r.call op = .error k) :
     let y := ((Sys.fresh cfg).runCycles segs).run last
     y.call op = (.err k, y, []) ∧ ∀ more, (y.step (.call op)).run more = y.run more := by
   intro y
   obtain ⟨_, _, _, _, _, hC⟩ := c02_cycles cfg segs last r hsegs hlast hlegal hwf hclean halive
   have hset : y.Settled :=
     Sys.run_settled last _ (Sys.runCycles_settled segs _ (Sys.fresh_settled cfg))
-  exact c06_sys_same_verdict_csys y r hC hset op hop k hr
+  exact c06_sys_same_verdict_csys y r hC hset op hop hsm k hr
 
 /-- A3 on the histories of C01 (calls, flushes, worker steps of any outcome —
 the worker may die — within the cache budget). -/
@@ -196,24 +220,25 @@ theorem c06_sys_same_verdict_c01 (cfg : Cfg) (steps : List Step) (r : RefLog)
     (h0 : SysRef (Sys.fresh cfg) {} (opsCount (stepOps steps)) (opsBytes (stepOps steps)))
     (hsteps : ∀ st ∈ steps, st.c01 = true) (hlegal : RefLog.run {} (stepOps steps) = some r)
     (hsmall : ∀ op ∈ stepOps steps, op.small)
-    (op : Op) (hop : op.single) (k : ErrKind) (hr : r.call op = .error k) :
+    (op : Op) (hop : op.single) (hsm : op.small) (k : ErrKind) (hr : r.call op = .error k) :
     let y := (Sys.fresh cfg).run steps
     y.call op = (.err k, y, []) ∧ ∀ more, (y.step (.call op)).run more = y.run more := by
   intro y
   obtain ⟨href, _⟩ := run_sysRef steps _ {} r h0 hsteps hlegal hsmall
-  exact c06_sys_same_verdict_sysRef y r 0 0 href (c06_reachable_settled cfg steps) op hop k hr
+  exact c06_sys_same_verdict_sysRef y r 0 0 href (c06_reachable_settled cfg steps) op hop hsm k hr
 
 /-- **A3, batches.** From the C02 invariant: the reference log accepts the
 entries `pre` (a legal, well-formed, small batch, reaching `r1`) and rejects the
 next entry `(id, p)` with kind `k`. Then the call with the whole batch returns
-`.err k` and leaves the system — and every continuation — exactly as the call
+`.err k` (D12: `.err invalidInput` if that entry's index is u64::MAX) and leaves the system — and every continuation — exactly as the call
 with `pre` alone does. -/
 theorem c06_sys_batch_same_verdict (y : Sys) (r r1 : RefLog) (h : CSys y r)
     (pre rest : List (LogId × Bytes)) (id : LogId) (p : Bytes) (k : ErrKind)
     (hl : r.legal (.append pre) = true) (hc : r.call (.append pre) = .ok r1)
     (hsm : (Op.append pre).small) (hwf : (Op.append pre).WF)
     (hr : r1.append1 id p = .error k) :
-    (y.call (.append (pre ++ (id, p) :: rest))).1 = .err k ∧
+    (y.call (.append (pre ++ (id, p) :: rest))).1 =
+      .err (if id.index + 1 = U64 then .invalidInput else k) ∧
     (y.call (.append (pre ++ (id, p) :: rest))).2 = (y.call (.append pre)).2 ∧
     ∀ more, (y.step (.call (.append (pre ++ (id, p) :: rest)))).run more =
       (y.step (.call (.append pre))).run more := by
